@@ -28,6 +28,10 @@ type C06Scenario struct {
 	Interval  int                 `json:"interval"`
 	Stalls    []StallSpec         `json:"stalls"`
 	Net       verifsimnet.Profile `json:"net"`
+	// Stdout: no outfile; the result tables go to stdout and the LAST table
+	// printed is the final result (the periodic and the final report share the
+	// printing path)
+	Stdout bool `json:"stdout,omitempty"`
 	// HoldCommandsMs: counterfactual of the late-command finding (see c02.go)
 	HoldCommandsMs int `json:"hold_commands_ms,omitempty"`
 }
@@ -125,7 +129,50 @@ func c06Gen(r *Rand, tier string, i int) Scenario {
 			sc.Net.LatencyMs = PickOf(r, 1, 10, 50)
 		}
 	}
+	if !many && r.Bool(0.25) {
+		sc.Stdout = true
+		if r.Bool(0.5) {
+			// keep the session alive over several report intervals
+			sc.Interval = 1
+			sc.Stalls = []StallSpec{{Name: "reader.perline", Site: "io/fs/readfilelcontext.go", Suffix: "/ranged", From: 0, To: -1, DurMs: PickOf(r, 5, 20, 50)}}
+			sc.Sched.BiasSites = []string{"clients/maprclient.go", "mapr/globalgroupset.go", "mapr/groupsetresult.go", "mapr/groupset.go"}
+			sc.Sched.BiasP = PickOf(r, 0.3, 0.6)
+		}
+		if r.Bool(0.6) {
+			// a slow client: taking or giving back the global result set's semaphore
+			// takes a while for a few of the reports/merges (rendering a big table
+			// or a busy machine), so report windows overlap other events in time
+			from := r.Intn(12)
+			sc.Stalls = append(sc.Stalls, StallSpec{Name: "client.slow-report", Site: "mapr/globalgroupset.go", Suffix: "", From: from, To: from + PickOf(r, 2, 5, 20),
+				DurMs: PickOf(r, 100, 400, 900)})
+		}
+	}
 	return sc
+}
+
+// c06LastTable converts the last result table printed to stdout into the CSV
+// form of the outfile ("no table" is reported like a missing outfile).
+func c06LastTable(stdout []byte) ([]byte, error) {
+	lines := strings.Split(string(stdout), "\n")
+	hdr := -1
+	for i, ln := range lines {
+		if strings.HasPrefix(strings.TrimSpace(ln), "g |") {
+			hdr = i
+		}
+	}
+	if hdr < 0 {
+		return nil, fmt.Errorf("no result table on stdout (%d bytes of output)", len(stdout))
+	}
+	var b strings.Builder
+	b.WriteString("g,count(n),sum(n)\n")
+	for _, ln := range lines[hdr+2:] {
+		f := strings.Split(ln, "|")
+		if len(f) != 3 {
+			break
+		}
+		b.WriteString(strings.TrimSpace(f[0]) + "," + strings.TrimSpace(f[1]) + "," + strings.TrimSpace(f[2]) + "\n")
+	}
+	return []byte(b.String()), nil
 }
 
 type c06Totals struct {
@@ -172,6 +219,9 @@ func c06Run(t *testing.T, s Scenario, src verifsim.DecisionSource, keep bool) *R
 		a := DefaultArgs()
 		a.NoColor = true
 		a.QueryStr = fmt.Sprintf("select g,count(n),sum(n) group by g interval %d logformat generickv outfile %s", sc.Interval, out)
+		if sc.Stdout {
+			a.QueryStr = fmt.Sprintf("select g,count(n),sum(n) group by g interval %d logformat generickv", sc.Interval)
+		}
 		var files []string
 		for _, c := range sc.Commands {
 			files = append(files, w.Data(c))
@@ -191,7 +241,11 @@ func c06Run(t *testing.T, s Scenario, src verifsim.DecisionSource, keep bool) *R
 		a.Mode = 5 // omode.MapClient
 		proc = &ClientProc{Kind: "map", Args: a}
 		w.RunClient(proc, sc.Transport == "ssh")
-		csv, csvErr = os.ReadFile(out)
+		if sc.Stdout {
+			csv, csvErr = c06LastTable(w.Stdout(proc.StdoutCut))
+		} else {
+			csv, csvErr = os.ReadFile(out)
+		}
 	})
 	res.NonTrivial = total > 0 && (len(sc.Files) > 1 || sc.Hosts > 1)
 	if res.Panic != "" {
@@ -284,14 +338,14 @@ func c06Shape(s Scenario) string {
 	for _, sp := range sc.Stalls {
 		st = append(st, fmt.Sprintf("%s@%d+%d", sp.Name, sp.From, sp.DurMs))
 	}
-	return fmt.Sprintf("%s/h%d/cats%d/files%v/cmds%d/g%d/i%d/%s/lat%d", sc.Transport, sc.Hosts, sc.Cfg.MaxCats, sc.Files, len(sc.Commands), sc.Groups, sc.Interval,
+	return fmt.Sprintf("%s/stdout=%v/h%d/cats%d/files%v/cmds%d/g%d/i%d/%s/lat%d", sc.Transport, sc.Stdout, sc.Hosts, sc.Cfg.MaxCats, sc.Files, len(sc.Commands), sc.Groups, sc.Interval,
 		strings.Join(st, ","), sc.Net.LatencyMs)
 }
 
 func c06Sample(s Scenario) any {
 	sc := s.(*C06Scenario)
 	return map[string]any{"transport": sc.Transport, "servers": sc.Hosts, "max_cats": sc.Cfg.MaxCats, "lines_per_file": sc.Files, "file_arguments": sc.Commands,
-		"groups": sc.Groups, "interval_s": sc.Interval, "stalls": sc.Stalls, "net": sc.Net, "sched": sc.Sched}
+		"groups": sc.Groups, "interval_s": sc.Interval, "result_to_stdout": sc.Stdout, "stalls": sc.Stalls, "net": sc.Net, "sched": sc.Sched}
 }
 
 func c06Clone(sc *C06Scenario) *C06Scenario {
